@@ -112,11 +112,11 @@ end EM
 macro "em_step" : tactic => `(tactic| first
   | exact EM.pure _
   | exact EM.ret _
-  | exact EM.failS _ (by mem_lit)
-  | exact EM.failM _ (by mem_lit)
-  | exact EM.handlerS _ (by mem_lit)
-  | exact EM.handlerM _ (by mem_lit)
-  | exact EM.handleError _ _ _ _ (by mem_lit)
+  | exact EM.failS _ (by first | decide | mem_lit)
+  | exact EM.failM _ (by first | decide | mem_lit)
+  | exact EM.handlerS _ (by first | decide | mem_lit)
+  | exact EM.handlerM _ (by first | decide | mem_lit)
+  | exact EM.handleError _ _ _ _ (by first | decide | mem_lit)
   | exact EM.loadP _
   | exact EM.storeP _ _
   | assumption
